@@ -33,6 +33,8 @@ FeatureChecker::FeatureChecker(Document& document)
 {
     document.accept(*this);
     visitFrame(document.get_globals().frame);
+    if (!document.all_broadcast())  // also local channels, channel arrays and channel parameters
+        supported_methods.stochastic = false;
     if (document.has_dynamic_templates())
         supported_methods.symbolic = false;
     if (document.has_priority_declaration()){
